@@ -1,70 +1,85 @@
-import XPathV.Generated.ExtraFacts
-import XPathV.Model.Api
-import XPathV.Lemmas.Facts
+import XPathV.Lemmas.C08Base
+import XPathV.Lemmas.ArithSem
 /-!
-# C08 — arithmetic and numeric functions follow XPath 1.0 / IEEE 754
+# C08 — arithmetic and numeric functions follow XPath 1.0 / IEEE 754 (property-level theorems)
 
-Parametric in the number algebra `F`: the theorems show that the engine converts each operand with
-the XPath `number()` rule and applies *the same IEEE operation to the same operands in the same
-order* as the specification; what the operations compute on doubles is the Go runtime's business.
+`Lemmas/C08Base.lean` (same namespace) holds the operand-conversion theorems and the T0 theorems
+over the regenerated sources; `Lemmas/ArithSem.lean` the induction over arithmetic expression
+trees.  Everything is parametric in the number algebra `F` (`NumAlg`): the theorems say that the
+engine applies *the same IEEE operation to the same operand values in the same order* as the
+XPath oracle, for trees of every depth.
+
+Fragment `NumEF`: number literals, `+ - * div`, unary minus (the parser's `x * -1`), `mod` where
+the oracle is defined (`ModDom`), parentheses, `floor`, `ceiling`, `number`, `number('…')`,
+`string-length('…')`, `count(P)` for flat relative paths `P` (child/attribute/self steps).
 -/
 namespace XPathV.Theorems.C08
-open XPathV XPathV.Model XPathV.Facts NumAlg
-
-/-- T0: `mod` no longer goes through `int` (the pinned `float64(int(a) % int(b))`), and the numeric
-operators are wired to the expected functions -/
-theorem numeric_ops_ok : Generated.modUsesIntConversion = false ∧
-    Generated.numericOpFuncs = [("+", "plusFunc"), ("-", "minusFunc"), ("*", "mulFunc"), ("div", "divFunc"), ("mod", "modFunc")] := by decide
+open XPathV XPathV.Model XPathV.Facts XPathV.PathSem XPathV.ArithSem NumAlg
 
 variable {F : Type} [NumAlg F]
 
-/-- embedding of spec values into model values -/
-def emb : Spec.Value F → MVal F
-  | .nodes l => .nodes l
-  | .bool b => .bool b
-  | .num x => .num x
-  | .str s => .str s
+/-- **C08, pure arithmetic trees of every depth**: for every document, context, configuration
+and every plan the builder makes of an expression of the fragment without `count`/`mod`, the
+engine's result is a number and it is the oracle's number -/
+theorem C08_arith_trees (d : Doc) (cfg : ECfg) (regexOk : RegexOk) (limit : Nat) (snt sdf : Bool)
+    {e : Ast} (he : NumE e) (ctx : Spec.Ctx) (fl : Flags) (st : BState) (o : BOut)
+    (hb : build regexOk limit snt sdf e fl st = .ok o) :
+    ∃ x : F, evalP (F := F) d cfg o.q ctx.node = .ok (.num x) ∧
+      Spec.eval (F := F) d e ctx = .ok (.val (.num x) none) :=
+  numE_sem d cfg regexOk limit snt sdf he ctx fl st o hb
 
-/-- `asNumber` is the XPath `number()` conversion on node-sets, numbers and strings
-(booleans are outside C08's fragment: Go maps them to NaN) -/
-theorem asNumber_spec (d : Doc) (v : Spec.Value F) (hb : ∀ b, v ≠ .bool b) :
-    asNumberM d (emb v) = Spec.toNum d v := by
-  cases v with
-  | nodes l => cases l <;> simp [emb, asNumberM, Spec.toNum, Spec.toStr, goParseFloat, Spec.strToNum, Spec.trimXml, Spec.parseUnsignedDecimal]
-  | bool b => exact absurd rfl (hb b)
-  | num x => rfl
-  | str s => rfl
+/-- **C08, full fragment** (with `mod` on the oracle's domain and `count` over flat paths);
+hypotheses of C01 for the `count` arguments: well-formed document, valid context node, navigator
+exposing namespace URIs, NoFnvCollision -/
+theorem C08_main {d : Doc} (wf : WF d) (cfg : ECfg) (hns : cfg.nsIface = true)
+    (hinj : HashInj d cfg) (regexOk : RegexOk) (limit : Nat) (sdf : Bool)
+    (c : Ref) (hc : validRef d c = true) (i n : Nat) {e : Ast} (he : NumEF d ⟨c, i, n⟩ F e)
+    (fl : Flags) (st : BState) (o : BOut) (hb : build regexOk limit true sdf e fl st = .ok o) :
+    ∃ x : F, evalP (F := F) d cfg o.q c = .ok (.num x) ∧
+      Spec.eval (F := F) d e ⟨c, i, n⟩ = .ok (.val (.num x) none) :=
+  numEF_sem wf cfg hns hinj regexOk limit sdf c hc i n he fl st o hb
 
-/-- the engine converts both operands of an arithmetic operator exactly as `number()` does; the
-operator then applied is the same `NumAlg` operation in `Model.evalP` and in `Spec.arith` -/
-theorem arith_operands_spec (d : Doc) (a b : Spec.Value F) (ha : ∀ x, a ≠ .bool x) (hb : ∀ x, b ≠ .bool x) :
-    (asNumberM d (emb a), asNumberM d (emb b)) = (Spec.toNum d a, Spec.toNum d b) := by
-  rw [asNumber_spec d a ha, asNumber_spec d b hb]
+/-- … at the public API: `Expr.Evaluate` returns the `float64` that the oracle's top-level
+evaluation returns -/
+theorem C08_evaluate {d : Doc} (wf : WF d) (cfg : ECfg) (hns : cfg.nsIface = true)
+    (hinj : HashInj d cfg) (regexOk : RegexOk) (limit : Nat) (sdf : Bool)
+    (c : Ref) (hc : validRef d c = true) {e : Ast} (he : NumEF d ⟨c, 1, 1⟩ F e)
+    (st : BState) (o : BOut) (hb : build regexOk limit true sdf e {} st = .ok o) :
+    ∃ x : F, evaluate (F := F) d cfg o.q c = .ok (.num x) ∧
+      Spec.evalTop (F := F) d e c = .ok (.num x) :=
+  numEF_evaluate wf cfg hns hinj regexOk limit sdf c hc he st o hb
 
-/-- arithmetic on two literals: the model's value is the specification's -/
-theorem arith_literals_spec (d : Doc) (cfg : ECfg) (c : Ref) (l1 l2 : String) :
-    evalP (F := F) d cfg (.numeric "+" (.constNum l1) (.constNum l2)) c
-      = .ok (.num (add (Spec.strToNum l1) (Spec.strToNum l2))) ∧
-    evalP (F := F) d cfg (.numeric "div" (.constNum l1) (.constNum l2)) c
-      = .ok (.num (div (Spec.strToNum l1) (Spec.strToNum l2))) ∧
-    evalP (F := F) d cfg (.numeric "mod" (.constNum l1) (.constNum l2)) c
-      = .ok (.num (fmod (Spec.strToNum l1) (Spec.strToNum l2))) := by
-  simp [evalP, asNumberM, bind, Except.bind]
+/-- **same operation, same operands, same order**: the value of `a op b` is `f x y` on both
+sides, for the one `NumAlg` operation `f` that `op` denotes and the values `x`, `y` of the
+operands — so NaN, ±∞ and −0 propagate identically, whatever IEEE says they do -/
+theorem C08_same_operation (d : Doc) (cfg : ECfg) (regexOk : RegexOk) (limit : Nat) (snt sdf : Bool)
+    (ctx : Spec.Ctx) {op : String} (hop : op ∈ arithOps) {a b : Ast} (ha : NumE a) (hb : NumE b)
+    (fl : Flags) (st : BState) (o : BOut)
+    (hbuild : build regexOk limit snt sdf (.oper op a b) fl st = .ok o) :
+    ∃ (f : F → F → F) (x y : F), opFn (F := F) op = some f ∧
+      Spec.eval (F := F) d a ctx = .ok (.val (.num x) none) ∧
+      Spec.eval (F := F) d b ctx = .ok (.val (.num y) none) ∧
+      evalP (F := F) d cfg o.q ctx.node = .ok (.num (f x y)) ∧
+      Spec.eval (F := F) d (.oper op a b) ctx = .ok (.val (.num (f x y)) none) :=
+  numEG_oper_value d cfg regexOk limit snt sdf ctx (countOK_false d cfg regexOk limit snt sdf ctx)
+    (modOK_false d ctx) hop ha hb fl st o hbuild
 
-/-- unary minus is `x * -1` in both the parser's encoding and the specification's reading of it -/
-theorem literal_is_lexeme (l : String) : (Spec.strToNum l : F) = goParseFloat l := rfl
+/-- **number → string**: `string(e)` of an arithmetic tree renders the same number with the same
+`Spec.numToStr` on both sides -/
+theorem C08_string_of_number (d : Doc) (cfg : ECfg) (regexOk : RegexOk) (limit : Nat) (snt sdf : Bool)
+    (ctx : Spec.Ctx) {a : Ast} (ha : NumE a) (pfx : String) (fl : Flags) (st : BState) (o : BOut)
+    (hb : build regexOk limit snt sdf (.call "string" pfx (.acons a .anil)) fl st = .ok o) :
+    ∃ x : F, Spec.eval (F := F) d a ctx = .ok (.val (.num x) none) ∧
+      evalP (F := F) d cfg o.q ctx.node = .ok (.str (Spec.numToStr x)) ∧
+      Spec.eval (F := F) d (.call "string" pfx (.acons a .anil)) ctx =
+        .ok (.val (.str (Spec.numToStr x)) none) :=
+  string_of_numE_sem d cfg regexOk limit snt sdf ctx ha pfx fl st o hb
 
-/-- `string()` of a number renders as XPath prescribes (the model's `asString` *is* the spec's) -/
-theorem number_to_string_spec (d : Doc) (x : F) : asStringM d (.num x) = .ok (Spec.numToStr x) := rfl
-
-/-- count() is the length of the node list -/
-theorem count_spec (d : Doc) (cfg : ECfg) (c : Ref) (l : List Ref) :
-    callFn (F := F) d cfg "count" .nil c [.ok (.nodes l)] none = .ok (.num (ofNat l.length)) := by
-  simp [callFn, bind, Except.bind]
-
-/-- T0: `mod` is `math.Mod`, the number rendering arm of `asString` is the XPath one -/
-theorem numeric_sources_ok : Generated.modCallbackSrc = "math.Mod(a,b)" ∧
-    Generated.asStringFloatSrc = "switch{casemath.IsNaN(v):return\"NaN\"casemath.IsInf(v,1):return\"Infinity\"casemath.IsInf(v,-1):return\"-Infinity\"casev==0:return\"0\"};returnstrconv.FormatFloat(v,'f',-1,64)" :=
-  ⟨rfl, rfl⟩
+/-- non-vacuity: `-(1 + 2.5) - floor(3 div 0)`, as the parser produces it, is in the fragment
+and the builder accepts it -/
+example : NumE (.oper "-" (.oper "*" (.group (.oper "+" (.num "1") (.num "2.5"))) (.num "-1"))
+    (.call "floor" "" (.acons (.oper "div" (.num "3") (.num "0")) .anil))) :=
+  .arith "-" _ _ (by decide) (NumEG.neg (.group _ (.arith "+" _ _ (by decide) (.num _) (.num _))))
+    (.floor "" _ (.arith "div" _ _ (by decide) (.num _) (.num _)))
 
 end XPathV.Theorems.C08
